@@ -1,6 +1,8 @@
 package main
 
 import (
+	"fmt"
+	"hash/fnv"
 	"regexp"
 	"go/ast"
 	"go/constant"
@@ -99,6 +101,9 @@ func (c *FuncCtx) eval0(st *State, e ast.Expr) Value {
 			ast.Inspect(e, func(m ast.Node) bool {
 				if call, ok := m.(*ast.CallExpr); ok {
 					if tv, ok := c.info.Types[call.Fun]; !ok || !tv.IsType() {
+						if f, ok := c.calleeObj(call).(*types.Func); ok && f.Pkg() != nil && f.Pkg().Path() == "math" {
+							return true // a pure function of package math
+						}
 						panic(verr("call inside a floating-point expression at %s", c.prog.pos(call)))
 					}
 				}
@@ -185,6 +190,22 @@ func (c *FuncCtx) eval0(st *State, e ast.Expr) Value {
 				idx++
 			}
 			return arr
+		}
+		if stt, ok := typ.Underlying().(*types.Struct); ok {
+			// a struct literal with field names: a fresh struct value holding the given fields,
+			// the zero value in the others
+			sv := &StructV{T: typ, Prefix: c.freshName("lit"), F: map[string]Value{}}
+			for i := 0; i < stt.NumFields(); i++ {
+				sv.F[stt.Field(i).Name()] = c.zeroValue(stt.Field(i).Type())
+			}
+			for _, el := range n.Elts {
+				kv, ok := el.(*ast.KeyValueExpr)
+				if !ok {
+					panic(verr("struct literal without field names at %s", c.prog.pos(n)))
+				}
+				sv.F[kv.Key.(*ast.Ident).Name] = c.eval(st, kv.Value)
+			}
+			return sv
 		}
 		if sl, ok := typ.Underlying().(*types.Slice); ok && len(n.Elts) == 0 {
 			// the empty slice literal: fresh zero-length storage
@@ -285,7 +306,7 @@ func (c *FuncCtx) evalBinary(st *State, n *ast.BinaryExpr) Value {
 		if isFloatType(c.typeOf(n.X)) || isFloatType(c.typeOf(n.Y)) {
 			// an order test between floats: an unknown boolean named after the source text
 			c.noFloatAssignTo(n.X, n.Y)
-			return BoolV{Var(feqName(n.X, n.Y)+"$"+map[token.Token]string{token.LSS: "lt", token.LEQ: "le", token.GTR: "gt", token.GEQ: "ge"}[n.Op], SBool)}
+			return BoolV{Var(feqName(n.X, n.Y)+"$"+map[token.Token]string{token.LSS: "lt", token.LEQ: "le", token.GTR: "gt", token.GEQ: "ge"}[n.Op]+c.intOperandsKey(st, n), SBool)}
 		}
 	}
 	if n.Op == token.EQL || n.Op == token.NEQ {
@@ -1125,4 +1146,52 @@ func bitTableFacts(op string, a, b, r *Term) []*Term {
 		}
 	}
 	return out
+}
+
+// calleeObj: the object a call expression calls (nil when it is not a named function or method).
+func (c *FuncCtx) calleeObj(call *ast.CallExpr) types.Object {
+	switch f := call.Fun.(type) {
+	case *ast.Ident:
+		return c.info.Uses[f]
+	case *ast.SelectorExpr:
+		return c.info.Uses[f.Sel]
+	}
+	return nil
+}
+
+// intOperandsKey: the current values of the integer-typed identifiers inside a float comparison,
+// as part of the name of its unknown outcome: the same text with the same integer inputs (and the
+// float variables unchanged, checked separately) denotes the same test.
+func (c *FuncCtx) intOperandsKey(st *State, e ast.Expr) string {
+	key := ""
+	seen := map[string]bool{}
+	ast.Inspect(e, func(m ast.Node) bool {
+		id, ok := m.(*ast.Ident)
+		if !ok || seen[id.Name] {
+			return true
+		}
+		obj := c.info.Uses[id]
+		if obj == nil {
+			return true
+		}
+		if _, isVar := obj.(*types.Var); !isVar {
+			return true
+		}
+		if _, isInt := intKindOf(obj.Type()); !isInt {
+			return true
+		}
+		seen[id.Name] = true
+		if v, ok := st.vars[obj]; ok {
+			if iv, ok := v.(IntV); ok {
+				key += "$" + feqSafe.ReplaceAllString(iv.T.Key(), "_")
+			}
+		}
+		return true
+	})
+	if len(key) > 160 {
+		h := fnv.New64a()
+		h.Write([]byte(key))
+		key = fmt.Sprintf("$h%x", h.Sum64())
+	}
+	return key
 }
